@@ -8,6 +8,10 @@ if [ -n "$(git status --porcelain)" ]; then echo "repo not clean"; exit 2; fi
 git apply "$patch" || { echo "patch does not apply"; exit 2; }
 trap 'git -C /repo checkout -- . ; git -C /repo clean -fdq -- internal net client acp crypto event node 2>/dev/null' EXIT
 cd /verif
+# evidence and replay files written by a run on the changed tree must not stay: keep the ones of the clean tree
+bak=$(mktemp -d /verif/work/mutant-bak.XXXX)
+cp -a /verif/evidence "$bak/evidence"; cp -a /verif/replays "$bak/replays"
+trap 'git -C /repo checkout -- . ; git -C /repo clean -fdq -- internal net client acp crypto event node 2>/dev/null; rm -rf /verif/evidence /verif/replays; mv "$bak/evidence" /verif/evidence; mv "$bak/replays" /verif/replays; rmdir "$bak"' EXIT
 for p in "$@"; do
   out=$(VERIF_SEED=${VERIF_SEED:-1} ./check "$p" --tier quick 2>&1); rc=$?
   case $rc in
